@@ -4896,7 +4896,14 @@ impl<'a, const HAS_CR: bool> Parser<'a, HAS_CR> {
                     // Empty line - skip and continue
                     self.skip_line_break();
                 }
-                Some(b'#') => {
+                // Indented past the indicator's own level, a leading `#` is
+                // the scalar's first content line like any other (block
+                // scalars have no comments inside them) and sets its
+                // indentation - `YamlCursor` already decodes it that way.
+                // Skipping it let a deeper second line set the indentation, so
+                // a third line back at the first line's level ended the scalar
+                // early and became a node of its own.
+                Some(b'#') if indent <= base_indent => {
                     // Comment line - skip to end
                     self.skip_to_eol();
                     self.skip_line_break();
@@ -6402,6 +6409,28 @@ mod tests {
             (b"- k: |1\n    y\n", "[{\"k\":\" y\\n\"}]"),
             (b"- |1\n  y\n", "[\" y\\n\"]"),
             (b"- - |\n    y\n", "[[\"y\\n\"]]"),
+        ] {
+            let index = crate::yaml::YamlIndex::build(yaml).expect("should parse");
+            assert_eq!(
+                index.root(yaml).to_json_document(),
+                expected,
+                "input: {:?}",
+                core::str::from_utf8(yaml)
+            );
+        }
+    }
+
+    /// A `#` line indented as content is the block scalar's first line and
+    /// fixes its indentation; the scalar does not end where a deeper second
+    /// line drops back to that level.
+    #[test]
+    fn block_scalar_may_start_with_a_hash_line() {
+        for (yaml, expected) in [
+            (&b"- |\n  #h\n   u\n  p\n"[..], "[\"#h\\n u\\np\\n\"]"),
+            (
+                b"a: |\n  # h\n  p\nb: 1\n",
+                "{\"a\":\"# h\\np\\n\",\"b\":1}",
+            ),
         ] {
             let index = crate::yaml::YamlIndex::build(yaml).expect("should parse");
             assert_eq!(
